@@ -79,8 +79,25 @@ def corpus_cases():
 
 def replay_case(ctx, prop, exe, variant):
     rp = json.load(open(ctx.replay))
-    case = rp.get("case", {}).get("case") or rp.get("case")
+    case = (rp.get("case") or {}).get("case") or rp.get("case")
+    if not isinstance(case, dict) or "hosts" not in case:
+        # a theorem/correspondence replay: the first recorded disagreement carries its case, if any
+        for b in rp.get("broken", []):
+            k = str(b[-1]).find(":: case=")
+            if k >= 0:
+                try:
+                    case = json.loads(str(b[-1])[k + 8:])["case"]
+                    break
+                except ValueError:
+                    pass
+    if not isinstance(case, dict) or "hosts" not in case:
+        ctx.log("replay: the file names no schedule; re-run the tier instead")
+        return None
     res = sched.run_case(exe, case, ctx.scratch)
+    bad = sched.accept_all(ctx, [sched.project_fan(res, variant)])[0] if res["crash"] is None and not res["bug"] else None
+    if bad is not None:
+        ctx.disagreement("Fan LTS (%s variant) vs dsh.c" % variant,
+                         "projected trace line %d `%s`: %s" % (bad[0], bad[1], bad[2]), pack(res))
     offs = [o for o in sched.offenders(res) if o[0] in (prop, "*")]
     ctx.log("replay: monitors %s" % (res["M"],))
     for p, sig, what in offs:
@@ -251,6 +268,7 @@ def explore_all(ctx, prop, exe_san, exe, variant, cov, dist):
         seen[sig] = seen.get(sig, 0) + 1
         if seen[sig] <= 50:
             ctx.offender(sig, what, pack(r))
+    cov["notes"] = list(ctx.notes)
     cov["distinct_nontrivial"] = len(distinct)
     cov["traces_validated_against_impl"] = cov["evaluations"]
     for k, v in known_total.items():
